@@ -45,10 +45,8 @@ func genNamedField(t *rapid.T, provs []pop.ProvSpec) pop.FieldSpec {
 	default:
 		name = rapid.SampledFrom([]string{"nosuch", "N1", "n1 ", "n"}).Draw(t, "absent")
 	}
-	opt := ""
-	if rapid.Bool().Draw(t, "optional") {
-		opt = ",required=false"
-	}
+	// only an explicit required=false makes a point optional: the bare flag and other spellings leave it required
+	opt := rapid.SampledFrom([]string{"", "", ",required=false", ",required=false", ",required=false", ",required", ",required=true", ",required=yes"}).Draw(t, "optional")
 	// now and then the name is not written literally but comes out of a placeholder
 	if !strings.ContainsAny(name, " /") && name == strings.ToLower(name) && rapid.IntRange(0, 3).Draw(t, "viaplaceholder") == 0 {
 		if rapid.Bool().Draw(t, "viadefault") {
@@ -363,4 +361,69 @@ func TestLazyAfterOtherContainer(t *testing.T) {
 		desc, labels, nt := graph.LazyAfterOther(t, "C07", false)
 		kit.Rec.Case(desc, nt, labels...)
 	})
+}
+
+// ---- a named component on a cycle that a plain post-processor decorates after initialization ---------------------
+
+// Every point that names "nc-account" - and the lookup of that name - receives ONE object: the component registered
+// under the name as the container publishes it. (Either that, or the start is refused.)
+type NCAccount struct {
+	Ledger any `wire:"nc-ledger"`
+}
+type NCLedger struct {
+	Account any `wire:"nc-account"`
+}
+type NCAudit struct {
+	Account any `wire:"nc-account"`
+	Ledger  any `wire:"nc-ledger"`
+}
+type NCDeco struct{ Target any }
+
+func (*NCAccount) Naming() string { return "nc-account" }
+func (*NCLedger) Naming() string  { return "nc-ledger" }
+func (*NCAudit) Naming() string   { return "nc-z-audit" }
+
+type ncDecoPP struct{ target string }
+
+func (*ncDecoPP) PostProcessBeforeInitialization(c any, n string) (any, error) { return c, nil }
+func (p *ncDecoPP) PostProcessAfterInitialization(c any, n string) (any, error) {
+	if n == p.target {
+		return &NCDeco{Target: c}, nil
+	}
+	return c, nil
+}
+
+func TestStaticNamedCycleDecorated(t *testing.T) {
+	kit.Rec.Rule(rule)
+	for _, target := range []string{"nc-account", "nc-ledger", "nc-z-audit", ""} {
+		a, l, au := &NCAccount{}, &NCLedger{}, &NCAudit{}
+		comps := []any{a, l, au}
+		if target != "" {
+			comps = append(comps, &ncDecoPP{target: target})
+		}
+		out := kit.RunApp(app.SetComponents(comps...))
+		desc := fmt.Sprintf("nc-account <-> nc-ledger by name, nc-z-audit names both; decorated after initialization: %q", target)
+		if out.Panic != nil {
+			t.Fatalf("C07: start-up panicked: %v (%s)", out.Panic, desc)
+		}
+		if out.Err != nil {
+			kit.Rec.Case(desc, true, "named-cycle-decorated", "refused")
+			continue
+		}
+		acc, _ := out.App.GetComponentByName("nc-account")
+		led, _ := out.App.GetComponentByName("nc-ledger")
+		for _, x := range []struct {
+			point     string
+			got, want any
+		}{
+			{`nc-ledger.Account wire:"nc-account"`, l.Account, acc}, {`nc-z-audit.Account wire:"nc-account"`, au.Account, acc},
+			{`nc-account.Ledger wire:"nc-ledger"`, a.Ledger, led}, {`nc-z-audit.Ledger wire:"nc-ledger"`, au.Ledger, led},
+		} {
+			if x.got != x.want {
+				kit.DumpReplay("c07-named-cycle-decorated", map[string]any{"scenario": desc, "point": x.point, "holds": fmt.Sprintf("%T %p", x.got, x.got), "registered_under_the_name": fmt.Sprintf("%T %p", x.want, x.want)})
+				t.Fatalf("C07: %s holds %T %p, the component registered under that name is %T %p (%s)", x.point, x.got, x.got, x.want, x.want, desc)
+			}
+		}
+		kit.Rec.Case(desc, true, "named-cycle-decorated", "started")
+	}
 }
